@@ -340,6 +340,23 @@ def run(ctx):
         ctx.cov["smallscope_schemas"] = len(scope)
     # cross-class pairs, with universal schemas on either side
     universal = [schema.any, schema.int | schema.any, schema.alias("U", schema.any), schema.any(schema.any, schema.none)]
+    # schema == value is true exactly when the value validates — also when the value is one of the objects the library uses as
+    # sentinels internally (`...`, Nil), or None / NotImplemented / a type
+    from niltype import Nil as _Nil
+    for sch in universal + [schema.none, schema.int, schema.list(schema.any), schema.list([schema.any]), schema.dict({"k": schema.any}),
+                            schema.any(schema.none, schema.int), schema.dict, schema.list]:
+        for val in (..., _Nil, None, NotImplemented, int, [...], [_Nil], {"k": ...}, {"k": _Nil}, [None], (), 0):
+            ctx.count("sentinel_value_comparisons")
+            try:
+                want = not validate(sch, val).has_errors()
+                got_eq, got_ne = (sch == val), (sch != val)
+            except Exception:  # noqa: BLE001
+                continue
+            if got_eq is not want or got_ne is want:
+                ctx.violation("schema == value disagrees with validate(schema, value)" if got_eq is not want else
+                              "schema != value is not the negation of ==", schema=safe_repr(sch), value=safe_repr(val),
+                              eq=safe_repr(got_eq), ne=safe_repr(got_ne), validates=want)
+                break
     others = [schema.int, schema.str, schema.none, schema.list, schema.dict, schema.bool, schema.float, schema.bytes,
               schema.list(schema.any), schema.dict({"a": schema.any}), schema.alias("U", schema.int)]
     for a in universal + others:
